@@ -8,10 +8,13 @@
    Partial: the kernel's bind / unlink / flock semantics are the model's assumptions (Model/Startup.v
    header), daemonisation and storage-initialisation failures are not modelled. *)
 From Coq Require Import List NArith Bool.
+From Sccache Require Import Model.Client.
 From Sccache Require Import Model.Startup.
 From Sccache Require Import Model.ServerLife.
 From Sccache Require Import Proofs.Startup.
 From Sccache Require Import Proofs.ServerLife.
+From Sccache Require Import Model.ServerExit.
+From Sccache Require Import Proofs.ServerExit.
 Import ListNotations.
 Local Open Scope N_scope.
 
@@ -140,7 +143,88 @@ Theorem C20_stop_waits : forall (t cap : N) (evs : list levent) (c : N) (evs' : 
 Proof. exact stop_waits. Qed.
 Print Assumptions C20_stop_waits.
 
+(* ---------- clients at the seams: start-up report, arrival during shutdown, cut connections (Model/ServerExit.v) ---------- *)
+
+(* The Startup model lets a waiting client proceed on the mailbox values StOk | StInUse.  In the code that is:
+   for EVERY requested address `a` — TCP port, Unix socket path in any spelling (bytes, nothing assumed: symlinked
+   directory, `..`, doubled separators), abstract name — the server that bound for `a` reports an address the
+   client's string comparison accepts, so the client that spawned it proceeds; a client proceeds exactly on the
+   reports that map into the model's alphabet; and a report of the address in ANOTHER spelling would make the
+   spawner bail (exit 2) although its server runs. *)
+Theorem C20_started_server_report_proceeds : forall (a : saddr) (rep : startup_report) (later : list conn_attempt),
+  (status_of_report (report_of_started_server a) = Some StOk /\ spawner_proceeds a = true)
+  /\ (connect_with_retry later = true ->
+      (connect_or_start ARefused rep later = None <-> status_of_report rep <> None))
+  /\ (connect_or_start ARefused (SOk false) later = Some EWrongAddr /\ status_of_report (SOk false) = None).
+Proof.
+  intros a rep later. split; [apply started_server_report_ok|]. split; [apply proceeds_iff_status|].
+  apply other_spelling_bails.
+Qed.
+Print Assumptions C20_started_server_report_proceeds.
+
+(* After a stop request has been polled — during the whole shutdown phase, while in-flight requests finish, and
+   after termination — the address is no longer served by this server: a client that arrives is REFUSED (it is
+   not queued behind a listener nobody accepts from), no connection is ever added, and by the start-up table the
+   late client cold-starts a fresh server for the same address (any spelling) and proceeds. *)
+Theorem C20_late_client_cold_starts : forall (t cap : N) (evs : list levent) (c : N) (evs' : list levent)
+                                             (a : saddr) (later : list conn_attempt),
+  let s := lexec (linit t cap) evs in
+  lphase s = Serving -> has_conn c (lconns s) = true ->
+  let s1 := lstep (lstep s (LRequest c true)) LPoll in
+  let s2 := lexec s1 evs' in
+  arrival s2 = ARefused
+  /\ (forall c', has_conn c' (lconns s2) = true -> has_conn c' (lconns s1) = true)
+  /\ (connect_with_retry later = true ->
+      connect_or_start (arrival s2) (report_of_started_server a) later = None).
+Proof. exact late_client_cold_starts. Qed.
+Print Assumptions C20_late_client_cold_starts.
+
+(* The same for ANY way the serving phase ended (idle expiry included): once not serving, never connectable again. *)
+Theorem C20_not_serving_refuses : forall (s : lst) (evs : list levent) (a : saddr) (later : list conn_attempt),
+  connect_ok s = false ->
+  arrival (lexec s evs) = ARefused /\
+  (connect_with_retry later = true ->
+   connect_or_start (arrival (lexec s evs)) (report_of_started_server a) later = None).
+Proof. exact not_serving_refuses. Qed.
+Print Assumptions C20_not_serving_refuses.
+
+(* A connection with a request in flight that is cut at termination was cut no earlier than drain start + cap,
+   and its client — which has the CompileStarted frame and ANY proper prefix of the CompileFinished frame, ending
+   inside the 4-byte length header, right after it, or anywhere inside the payload — runs the compile locally
+   and returns its status (with or without SCCACHE_IGNORE_SERVER_IO_ERROR). *)
+Theorem C20_cut_connection_falls_back :
+  forall (t cap : N) (evs : list levent) (since fin : N) (r : reason) (cut : list (N * bool)) (c : N)
+         (opq : N -> list N -> bool) (ignore_io : bool) (f : finished) (k : nat) (local : N),
+  lphase (lexec (linit t cap) evs) = Terminated since fin r cut ->
+  In (c, true) cut ->
+  blen (encode_finished f) < 4294967296 ->
+  (k < length (frame (encode_finished f)))%nat ->
+  since + cap <= fin
+  /\ cut_client opq ignore_io f k = RunLocally LEofAfterAck
+  /\ exit_code (cut_client opq ignore_io f k) local = local.
+Proof. exact cut_connection_falls_back. Qed.
+Print Assumptions C20_cut_connection_falls_back.
+
 (* ---------- non-vacuity ---------- *)
+
+(* a late request that takes longer than what is left of the running idle period: the timer is re-armed at RECEIPT
+   (t = 4500), so the shutdown begins at 10500, not at the old deadline 6000 while the request is being worked on *)
+Example C20_late_request_run :
+  let evs := [LTick 4500; LAccept 1; LRequest 1 false; LPoll; LTick 1500; LPoll; LTick 2500; LFinish 1; LClose 1;
+              LTick 2000; LPoll] in
+  prompt (linit 6000 10000) evs = true
+  /\ lphase (lexec (linit 6000 10000) evs) = Draining 10500 RIdle
+  /\ lphase (lexec (linit 6000 10000) (firstn 10 evs)) = Serving.
+Proof. vm_compute. repeat split; reflexivity. Qed.
+
+(* a client arriving while an in-flight compile finishes after a stop: refused, the connection set is unchanged *)
+Example C20_late_client_run :
+  let s := lexec (linit 0 10000) [LAccept 1; LRequest 1 false; LPoll; LTick 1000; LAccept 2; LRequest 2 true; LPoll;
+                                  LFinish 2; LClose 2; LWake; LTick 500] in
+  lphase s = Draining 1000 RStop /\ lconnect s 3 = (s, false) /\ arrival s = ARefused
+  /\ spawner_proceeds (Client.UdsPath [47; 116; 47; 46; 46; 47; 116; 47; 115]) = true.
+Proof. vm_compute. repeat split; reflexivity. Qed.
+
 
 (* a complete TCP run of two racing clients: quiescent, no time-outs, both connected to server 0 *)
 Example C20_tcp_run :
